@@ -1,10 +1,12 @@
 package gitindex
 
 import (
-	"sort"
 	"fmt"
+	"github.com/sourcegraph/zoekt/internal/verifsim/simos"
 	"os"
 	"path/filepath"
+	"regexp"
+	"sort"
 	"strings"
 	"testing"
 
@@ -23,6 +25,8 @@ import (
 // nothing else.
 
 func init() { hx.Register("C13", "C13", runC13) }
+
+var c13TmpRe = regexp.MustCompile(`\.\d+\.tmp`)
 
 func indexOf(xs []string, x string) int {
 	for i, v := range xs {
@@ -134,6 +138,7 @@ func runC13(t *testing.T, tp *simrt.Tape, keepTrace bool) hx.Result {
 	genCommit()
 	nSteps := tp.GenRange(3, 10)
 	indexed := false
+	afterKill := false
 	branches := allBranches
 	runs := 0
 	for i := 0; i < nSteps; i++ {
@@ -170,6 +175,28 @@ func runC13(t *testing.T, tp *simrt.Tape, keepTrace bool) hx.Result {
 			o.BuildOptions.IsDelta = true
 			o.DeltaShardNumberFallbackThreshold = uint64(tp.GenRange(1, 3))
 		}
+		if indexed && tp.Gen(6) == 0 {
+			// this run is killed at a fault-stream-chosen file-system operation: what it
+			// leaves behind is C12's subject; what matters here is that the following
+			// runs (full or delta, on top of whatever is there) give the right view again
+			k := 1 + tp.Fault(40)
+			p := simos.NewProc("indexer", simos.Plan{CrashAt: k})
+			completed := gWithProc(p, func() { IndexGitRepo(o) })
+			if res.Faults == nil {
+				res.Faults, res.Offered = map[string]int{}, map[string]int{}
+			}
+			res.Offered["kill"]++
+			if !completed {
+				res.Faults["kill"]++
+				killedAt := ""
+				for _, op := range simos.StateOf(p).Log {
+					killedAt = fmt.Sprintf("after %d ops, last %s %s", op.K, op.Name, c13TmpRe.ReplaceAllString(filepath.Base(op.Path), ".*.tmp"))
+				}
+				history = append(history, fmt.Sprintf("index %s %v KILLED before its file-system operation %d (%s)", kind, branches, k, killedAt))
+				afterKill = true
+				continue
+			}
+		}
 		history = append(history, fmt.Sprintf("index %s %v", kind, branches))
 		_, err := IndexGitRepo(o)
 		res.Evals++
@@ -185,7 +212,11 @@ func runC13(t *testing.T, tp *simrt.Tape, keepTrace bool) hx.Result {
 			break
 		}
 		if p := gCompare(view, g, branches); p != "" {
-			report("branch-view-differs-from-git|"+kind, p+fmt.Sprintf("; index files %v", lsNames(indexDir)))
+			sub := kind
+			if afterKill {
+				sub += "|after-killed-run"
+			}
+			report("branch-view-differs-from-git|"+sub, p+fmt.Sprintf("; index files %v", lsNames(indexDir)))
 			break
 		}
 		res.Distinct = append(res.Distinct, gHash(strings.Join(history, "|")))
